@@ -54,6 +54,18 @@ func (w *W) havocType(tag string, t types.Type) Value {
 		}
 		return IfaceV{}
 	}
+	if isByteSlice(t) {
+		// arbitrary short byte slice (length 0..2) or nil
+		n := w.Choose(-1, 2)
+		if n < 0 {
+			return SliceV{Nil: true}
+		}
+		bs := make([]*smt.Term, n)
+		for i := range bs {
+			bs[i] = w.Fresh(fmt.Sprintf("%s[%d]", tag, i), 8)
+		}
+		return w.makeByteSlice(bs)
+	}
 	return w.freshOf(tag, t)
 }
 
@@ -86,7 +98,19 @@ func ruleLogger(w *W, fn *ssa.Function, args []Value) Value {
 		rt := res.At(i).Type()
 		switch u := rt.Underlying().(type) {
 		case *types.Pointer:
-			vals[i] = PtrV{C: w.newCell(u.Elem())}
+			cell := w.newCell(u.Elem())
+			// logger wrappers embed a logger interface: give it a non-nil dummy
+			if st, ok := u.Elem().Underlying().(*types.Struct); ok {
+				if lp := w.E.Pkgs["github.com/sirupsen/logrus"]; lp != nil && lp.Type("Entry") != nil {
+					et := types.NewPointer(lp.Type("Entry").Type())
+					for fi := 0; fi < st.NumFields(); fi++ {
+						if it, ok := st.Field(fi).Type().Underlying().(*types.Interface); ok && types.Implements(et, it) {
+							cell.Kids[fi].V = IfaceV{T: et, V: PtrV{C: w.newCell(lp.Type("Entry").Type())}}
+						}
+					}
+				}
+			}
+			vals[i] = PtrV{C: cell}
 		case *types.Interface:
 			// a logger-ish interface: hand back a non-nil dummy *logrus.Entry if available
 			if lp := w.E.Pkgs["github.com/sirupsen/logrus"]; lp != nil && lp.Type("Entry") != nil {
@@ -208,6 +232,13 @@ func vpRule(name string) Rule {
 			c := w.C
 			s := c.Add(c.ZExt(w.termOf(a[0]), 64), c.ZExt(w.termOf(a[1]), 64))
 			return TupleV{c.Extract(s, 127, 64), c.Extract(s, 63, 0)}
+		}
+	case "vpUF64":
+		// uninterpreted 64-bit function of 64-bit arguments (callee summaries)
+		return func(w *W, fn *ssa.Function, a []Value) Value {
+			var in []*smt.Term
+			w.flattenBytes(a[1], &in)
+			return concatBytes(w.C, w.hashUF("vpuf:"+w.mustStr(a[0], "uf name"), in, 8, false))
 		}
 	case "vpThorough":
 		return func(w *W, fn *ssa.Function, a []Value) Value { return w.C.Bool(w.H.Thorough) }
